@@ -428,8 +428,9 @@ theorem commutes_with_general_iff_partial (atol rtol : Rat) (ha : 0 ≤ atol) (n
 /-! ## `is_hermitian(InteractionOperator)` -/
 
 /-- FULL STATEMENT: `is_hermitian(InteractionOperator)` is True iff the denoted operator is
-Hermitian.  Proved: the soundness direction in the exact regime (`hexact`: tensor entries closer
-than the tolerance are equal) — if the coded test (normal-ordered tensors of the operator and of
+Hermitian.  Proved: the soundness direction in the exact regime (`hexact`: entries of the two normal-ordered
+tensor families that are closer than the tolerance are equal — decidable on the instance, true
+for dyadic tensors) — if the coded test (normal-ordered tensors of the operator and of
 `hermitian_conjugated(operator)` compared with `PolynomialTensor.__eq__`) is True, the operator
 `c + Σ one[p,q] a†_p a_q + Σ two[p,q,r,s] a†_p a†_q a_r a_s` equals its formal adjoint (conjugated
 constant, `T.conj()` tensors) in EVERY algebra satisfying the CAR.  The completeness direction
@@ -440,7 +441,11 @@ theorem is_hermitian_io_sound_partial {A : Type} [Ring A] (I : Proofs.C03.Interp
     (car_same : ∀ x l : Factor, x.2 = l.2 → x.1 ≠ l.1 → I.g l * I.g x + I.g x * I.g l = 0)
     (car_sq : ∀ x l : Factor, x.2 = l.2 → x.1 = l.1 → I.g l * I.g x = 0)
     (tol : Rat) (n : Nat) (c : GQ) (one two : List GQ) (hlen : one.length = n * n)
-    (hexact : ∀ x y : GQ, (x - y).normSq < tol * tol → x = y)
+    (hexact : ∀ k i,
+      (Spec.C02.entry (ioNormalTensors n c one two) k i -
+        Spec.C02.entry (ioNormalTensors n c.conj (hcOneBody n one) (hcTwoBody n two)) k i).normSq < tol * tol →
+      Spec.C02.entry (ioNormalTensors n c one two) k i =
+        Spec.C02.entry (ioNormalTensors n c.conj (hcOneBody n one) (hcTwoBody n two)) k i)
     (h : isHermitianIO tol n c one two = true) :
     Proofs.C03.denIO I n c one two =
       Proofs.C03.denIO I n c.conj (hcOneBody n one) (hcTwoBody n two) :=
